@@ -369,7 +369,7 @@ def _replace_subexps(block, net_table):
 
 
 def _has_normal_dest_wire(net):
-    return not isinstance(net.dests[0], (Register, Output))
+    return len(net.dests) > 0 and not isinstance(net.dests[0], (Register, Output))
 
 
 def _process_nets_to_discard(nets, wire_map, unnecessary_nets):
